@@ -163,4 +163,16 @@ CHECKS = {
             {"part": "admission", "test": "TestAdmission", "quick": {"checks": 320, "shards": 16, "shrinktime": "60s", "timeout": 900}, "thorough": {"checks": 8000, "shards": 16, "shrinktime": "120s", "timeout": 6000}},
         ],
     },
+    "C04": {
+        "pkg": "c04",
+        "engine": "e2e-opkit",
+        "aux_builds": [{"pkg": "./cmd/vhook", "out": "vhook"}],
+        "technique": "property-based fault injection (rapid): scripted failure patterns against the real operator, execution log compared with a retry/combine reference model; pure property test of the back-off delay",
+        "level_text": "Random queue contents and failure scripts (k failures then success, several failure kinds) through the real task handler with real hook processes; per-queue execution sequences and retry gaps compared with the model the property prescribes. Search, not proof.",
+        "level_note": "Trusted: scripted hook and its in-process timestamps (gap is over-estimated, so 'gap >= initial delay' cannot be falsely flagged); the back-off function of the queues is capped at 60 ms for retries > 0 to keep cases fast (CalculateDelay itself is checked separately for all retry counts).",
+        "parts": [
+            {"part": "delay", "test": "TestDelay", "quick": {"checks": 20000, "shards": 2}, "thorough": {"checks": 2000000, "shards": 16}},
+            {"part": "retry", "test": "TestRetry", "quick": {"checks": 320, "shards": 16, "shrinktime": "90s", "timeout": 900}, "thorough": {"checks": 4000, "shards": 16, "shrinktime": "180s", "timeout": 6000}},
+        ],
+    },
 }
